@@ -201,6 +201,9 @@ def gen_cases(ctx):
             fam = [f for f in fams if f != "hh"][(j + rep) % 3] if kl[1] > 255 else fams[(j + rep) % 4]
             yield {"type": "uniform", "family": fam, "width": 16, "depth": 8, "n_keys": 8000 if kl[1] < 2000 else 5000, "key_len": list(kl),
                    "seed": int(rng.integers(0, 2**62))}
+        # deep tables: more rows than an 8-bit row counter can address
+        for fam, d in (("linear", 260), ("log8", 256), ("log16", 300))[rep % 3: rep % 3 + (3 if q else 1)]:
+            yield {"type": "uniform", "family": fam, "width": 4, "depth": d, "n_keys": 3000, "seed": int(rng.integers(0, 2**62))}
         # cell ownership read through every entry point that adds a key (each may hash for itself)
         for j, via in enumerate(("ulist", "udict", "ngram", "ndarray")):
             yield {"type": "uniform", "family": fams[(j + rep) % 3], "width": 16, "depth": 8, "n_keys": 20000, "via": via,
@@ -231,6 +234,7 @@ def replay(case, ctx, mon):
 def floors(mon, ctx):
     mon.floor("row pairs of a depth-8 linear sketch", len([x for x in mon.classes["row_pair"] if x.startswith("linear:")]), 28)
     mon.floor("families probed", len(mon.classes["family"]), 4)
+    mon.floor("row pairs tested (incl. tables of 256+ rows)", mon.counters["row_pairs_tested"], 30000)
     mon.floor("entry points through which cell ownership was read (add, update(list), update(dict), add_ngram)", len(mon.classes["probed_via"] - {"ndarray"}), 4)
     mon.floor("key length classes probed for uniformity and independence", len(mon.classes["key_length_class"]), 4)
     mon.floor("families probed with constructed one-row collisions", len(mon.classes["collide_family"]), 4)
